@@ -72,14 +72,19 @@ def _contract_test(F, fn, b, taken, direct=False):
         if t['k'] != 'switch' or not is_place(t['op']) or t['op']['pl']['p']:
             continue
         sd = fn.single_def(t['op']['pl']['l'])
-        if not sd or sd[2] != 'assign' or sd[3]['rv']['k'] != 'bin' or sd[3]['rv']['op'] != 'Lt':
+        if not sd or sd[2] != 'assign' or sd[3]['rv']['k'] != 'bin' or sd[3]['rv']['op'] not in ('Lt', 'Gt', 'Ge', 'Le'):
             continue
         is_true = (t['otherwise'] == s_ and not [v for v, tb in t['targets'] if tb == s_])
-        if is_true != taken:
+        # normalise to `len < minimum`:  len < m | m > len  (as written)   len >= m | m <= len  (negated)
+        op_, a_, b_ = sd[3]['rv']['op'], sd[3]['rv']['a'], sd[3]['rv']['b']
+        if op_ in ('Gt', 'Le'):
+            a_, b_ = b_, a_
+        too_small = is_true if op_ in ('Lt', 'Gt') else (not is_true)
+        if too_small != taken:
             continue
-        if paths.show_operand(fn, sd[3]['rv']['a']) != 'slice::len(arg4)' or not is_place(sd[3]['rv']['b']):
+        if paths.show_operand(fn, a_) != 'slice::len(arg4)' or not is_place(b_):
             continue
-        c = fn.canon(sd[3]['rv']['b']['pl'])
+        c = fn.canon(b_['pl'])
         vals = {}
         for lf in origins.trace(fn, c['l'], origins.norm_path(c['p']), at=(sd[0], sd[1])):
             if lf[0] == 'const':
